@@ -86,7 +86,12 @@ func ComposeDot(w io.Writer, g *Graph, a *DotAttributes, c *DotConfig) {
 		hasNodelets[n] = builder.addNodelets(n, nodeIDMap[n])
 
 		// Collect all edges. Use a fake node to support multiple incoming edges.
+		// Skip edges to nodes that are not part of the graph (e.g. nodes whose
+		// values cancel out in a profile diff): they have no declaration.
 		for _, e := range n.Out {
+			if _, ok := nodeIDMap[e.Dest]; !ok {
+				continue
+			}
 			edges[&Node{}] = e
 		}
 	}
